@@ -18,19 +18,34 @@ open Mtv.Gen.CallGraph (model)
 
 /-- **Closure, soundness** (every finite graph, every start node): whatever `reach` returns is
     connected to the start node by a path. -/
-theorem reach_sound (g : Graph) (s y : Nat) (h : y ∈ reach g s) : Reach g s y :=
+theorem reach_sound (g : Graph) (s y : Nat) (h : y ∈ reach g s) : Reach (succ g) s y :=
   (mem_reach_iff g s y).mp h
 
 /-- **Closure, completeness** (every finite graph, every start node, every path of any length):
     every node connected to the start node by a path is returned by `reach`. -/
-theorem reach_complete (g : Graph) (s y : Nat) (h : Reach g s y) : y ∈ reach g s :=
+theorem reach_complete (g : Graph) (s y : Nat) (h : Reach (succ g) s y) : y ∈ reach g s :=
   (mem_reach_iff g s y).mpr h
 
 /- non-trivial instance: a graph with a cycle, a node reached only through it, an unreachable node,
    and an edge to a node without a row -/
 example : reach [[1], [2], [0, 4], [0], [7]] 0 = [7, 4, 2, 1, 0] := by decide
-example : Reach [[1], [2], [0, 4], [0], [7]] 0 7 := reach_sound _ _ _ (by decide)
-example : ¬ Reach [[1], [2], [0, 4], [0], [7]] 0 3 := fun h => absurd (reach_complete _ _ _ h) (by decide)
+example : Reach (succ [[1], [2], [0, 4], [0], [7]]) 0 7 := reach_sound _ _ _ (by decide)
+example : ¬ Reach (succ [[1], [2], [0, 4], [0], [7]]) 0 3 :=
+  fun h => absurd (reach_complete _ _ _ h) (by decide)
+
+/-- **Closure, in the form the kernel evaluates** (every graph given in chunks of `k` rows — the
+    shape the translator emits — every start node): bit `y` of the mask `reachM2` computes is set
+    exactly when a path leads from `s` to `y`. The mask version is proved equal to the list version,
+    for which soundness and completeness are proved from the general closure theorem
+    (`mem_bfs_iff`: any successor function with finitely many edge targets). -/
+theorem reachM2_exact (k : Nat) (c : List Graph) (s y : Nat) :
+    (reachM2 k c s).testBit y = true ↔ Reach (succ2 k c) s y :=
+  testBit_reachM2 k c s y
+
+/- the chunked presentation of the same example graph (2 rows per chunk) -/
+example : (reachM2 2 [[[1], [2]], [[0, 4], [0]], [[7]]] 0).testBit 7 = true := by decide +kernel
+example : ¬ Reach (succ2 2 [[[1], [2]], [[0, 4], [0]], [[7]]]) 0 3 :=
+  fun h => absurd ((reachM2_exact _ _ _ _).mpr h) (by decide +kernel)
 
 /-- **The emitted node set is closed** (clause "all paths": nothing the paths can visit is missing from
     the graph the other theorems evaluate): the translator succeeded; there is one adjacency row per
@@ -52,7 +67,7 @@ example : 0 < model.numNodes ∧ model.entries.length ≥ 3 ∧ model.generators
     in `crypto/rand.*`. All paths of the call graph, not the ones a run takes. -/
 theorem secrets_from_crypto :
     ∀ g, g ∈ model.sources →
-      (∀ y, Reach model.adj g y → y ∉ model.mathRand) ∧ (∃ y, Reach model.adj g y ∧ y ∈ model.cryptoRand) :=
+      (∀ y, Reach model.sc g y → y ∉ model.mathRand) ∧ (∃ y, Reach model.sc g y ∧ y ∈ model.cryptoRand) :=
   Model.allSourcesOK_spec model (by decide +kernel)
 
 /- not vacuous: there are sources, and `math/rand` functions do occur in the graph (SplitPQ, session id) -/
@@ -62,7 +77,7 @@ example : model.sources.length ≥ 8 ∧ model.mathRand ≠ [] ∧ model.cryptoR
     (`time.Now/Since/Until`, `os.Getpid`) or a `crypto/rand.Int/Prime` call whose reader argument is
     not `crypto/rand.Reader` itself. -/
 theorem sources_pure :
-    ∀ g, g ∈ model.sources → ∀ y, Reach model.adj g y → y ∉ model.clock ∧ y ∉ model.suspect :=
+    ∀ g, g ∈ model.sources → ∀ y, Reach model.sc g y → y ∉ model.clock ∧ y ∉ model.suspect :=
   Model.allSourcesPure_spec model (by decide +kernel)
 
 /- not vacuous: clock readers do occur in the graph (message ids, SplitPQ's seed, the session id) -/
@@ -78,8 +93,8 @@ theorem crypto_reader_untouched : model.readerStores = [] := by decide +kernel
     sets is read by nobody who produces a secret. (The session id is still drawn from the reseeded
     global generator; it is not a key-agreement secret.) -/
 theorem no_reseed :
-    ∀ e, e ∈ model.entries → ∀ s, s ∈ model.seeders → Reach model.adj e s →
-      ∀ g, g ∈ model.sources → (¬ Reach model.adj g s) ∧ (∀ y, Reach model.adj g y → y ∉ model.mathRand) := by
+    ∀ e, e ∈ model.entries → ∀ s, s ∈ model.seeders → Reach model.sc e s →
+      ∀ g, g ∈ model.sources → (¬ Reach model.sc g s) ∧ (∀ y, Reach model.sc g y → y ∉ model.mathRand) := by
   intro e _ s hs _ g hg
   have h := (secrets_from_crypto g hg).1
   exact ⟨fun hr => h s hr (graph_closed.seeders_math s hs), h⟩
@@ -88,13 +103,13 @@ theorem no_reseed :
     translator finds one, the hypothesis of `no_reseed` is satisfiable: a client constructor does reseed
     `math/rand`) -/
 theorem seed_path_valid :
-    model.seedPath ≠ [] → ∃ e, e ∈ model.entries ∧ ∃ s, s ∈ model.seeders ∧ Reach model.adj e s :=
+    model.seedPath ≠ [] → ∃ e, e ∈ model.entries ∧ ∃ s, s ∈ model.seeders ∧ Reach model.sc e s :=
   Model.seedPathOK_spec model (by decide +kernel)
 
 /-- **The generators are on the paths from the entry points**: every generator is reachable from an
     entry point (witness paths emitted by the translator, checked edge by edge). -/
 theorem generators_reachable :
-    ∀ g, g ∈ model.generators → ∃ e, e ∈ model.entries ∧ Reach model.adj e g :=
+    ∀ g, g ∈ model.generators → ∃ e, e ∈ model.entries ∧ Reach model.sc e g :=
   Model.witnessesOK_spec model model.generators model.witnessPaths (by decide +kernel)
 
 end Mtv.Rand
